@@ -222,3 +222,14 @@ Theorem C15_solver_rotation_half_turn : forall p r t, vnorm r = PI ->
   solver_rotate_translate p r t = vadd (vsub (vscale (2 * vdot p (axis r)) (axis r)) p) t.
 Proof. exact solver_rt_half_turn. Qed.
 Print Assumptions C15_solver_rotation_half_turn.
+
+(* ---- row-wise independence: the batched solver functions are modelled (and translated) as ONE row, i.e. every
+        output row depends on its own (base-station pose, Crazyflie pose, sensor) only -- this is what
+        C15_projection_paths_agree / C15_code_params_paths_agree state "for every parameter row".  A batch evaluation
+        that shares axis/sin/cos inside a block of rows agrees only when the rows of a block have the same rotation
+        vector, and differs on a concrete pair of rows otherwise *)
+Theorem C15_block_shared_rotation_refuted :
+  (forall p0 r t0 p1 t1, rt_block_shared2 p0 r t0 p1 r t1 = rt_rows2 p0 r t0 p1 r t1) /\
+  (exists p0 r0 t0 p1 r1 t1, rt_block_shared2 p0 r0 t0 p1 r1 t1 <> rt_rows2 p0 r0 t0 p1 r1 t1).
+Proof. exact block_shared_rotation_refuted. Qed.
+Print Assumptions C15_block_shared_rotation_refuted.
